@@ -307,6 +307,15 @@ def prepare_dump(data: IOData, allow_changes: bool, filename: str) -> IOData:
         raise PrepareDumpError("The Molekel format requires an orbital basis set.", filename)
     if data.mo.kind == "generalized":
         raise PrepareDumpError("Cannot write Molekel file with generalized orbitals.", filename)
+    # The reader derives the number of electrons from the atomic numbers and the (integer) charge.
+    if data.atnums is not None and not np.array_equal(data.atcorenums, data.atnums):
+        raise PrepareDumpError(
+            "The Molekel format does not support core charges that differ from the atomic numbers "
+            "(pseudopotentials or ghost atoms).",
+            filename,
+        )
+    if data.charge is not None and abs(data.charge - np.round(data.charge)) > 1e-7:
+        raise PrepareDumpError("The Molekel format requires an integer charge.", filename)
     data = prepare_unrestricted_aminusb(data, allow_changes, filename, "Molekel")
     return prepare_segmented(data, False, allow_changes, filename, "Molekel")
 
